@@ -525,14 +525,29 @@ func (e *Env) Exec(op Op) (o Out) {
 		}
 	case "upAttach":
 		// a further handle (slot W) on the session of slot O1, which stays open.
-		// Mode: 0 at the size the other handle reports; 1 offset -1; 2 offset size+N (wrong, N != 0)
+		// Mode: 0 at the size the other handle reports; 1 offset -1; 2 offset size+N (wrong, N != 0);
+		// 3 offset -1, the session's id presented in repository R (where it names no session unless R is the session's own)
 		src := e.Writers[int(op.O1)]
 		if src == nil || int(op.O1) == op.W {
 			o.Skipped = true
 			return
 		}
+		if op.Mode == 3 && op.R != src.Repo {
+			e.closeSlot(op.W)
+			delete(e.Writers, op.W)
+			w, err := reg.PushBlobChunkedResume(ctx, e.repo(op.R), src.ID, -1, 0)
+			o.setErr(err)
+			o.WSize = -1
+			if err == nil {
+				e.Writers[op.W] = &Writer{W: w, Repo: op.R, ID: w.ID()}
+				o.ID, o.N = w.ID(), w.ChunkSize()
+			}
+			return
+		}
 		var off int64
 		switch op.Mode {
+		case 3:
+			off = -1
 		case 0:
 			off = src.W.Size()
 		case 1:
